@@ -507,6 +507,23 @@ impl World
         }
     }
 
+    /* `mv from to`: the file keeps its modification time and permission */
+    pub fn user_rename(&self, from : &str, to : &str)
+    {
+        let mut g = self.lock();
+        g.clock += 1;
+        let _ = g.disk.rename(from, to);
+    }
+
+    /* overwrite without the courtesy of a new timestamp bookkeeping: used for damaged state files */
+    pub fn user_put_raw(&self, path : &str, content : &[u8])
+    {
+        let mut g = self.lock();
+        g.clock += 1;
+        let t = g.clock;
+        let _ = g.disk.put_file(path, content, t);
+    }
+
     pub fn user_delete(&self, path : &str)
     {
         let mut g = self.lock();
@@ -858,12 +875,8 @@ impl System for SimSystem
             let code = o.code.unwrap_or(-1);
             codes.push(code);
             out.push(Ok(o));
-            if code != 0
-            {
-                // the stub shell is `sh -e`-like: a failing line ends the script, so that a failing
-                // command writes nothing after the failure (the assumption stated in C08)
-                break;
-            }
+            // like RealSystem: every line is its own shell invocation, a failing line does not
+            // stop the following ones
         }
         IN_COMMAND.with(|c| c.set(false));
 
